@@ -210,7 +210,8 @@ def run(ch, idx, tier):
     names = [n for n in PROJECTS if n in _CORPUS and n not in HEAVY] + _corpus_mod.generated_names()
     heavy = [n for n in PROJECTS if n in _CORPUS and n in HEAVY]
     K = 1 + ch.choose("n_clients", 4)
-    stride = [1, 1, 3, 10][ch.choose("baton_stride", 4)]
+    stride = [1, 1, 3, 10, 37][ch.choose("baton_stride", 5)]
+    fine_grained = ch.flip("fine_grained_preemption", 0.35)
     p_disturb = [0.0, 0.05, 0.2][ch.choose("disturb_rate", 3)]
     scratch = tempfile.mkdtemp(prefix="atomsim_c08_", dir=os.environ.get("VERIF_SCRATCH"))
 
@@ -285,13 +286,41 @@ def run(ch, idx, tier):
     for name_ in ("build", "initialize_compartments"):
         seams.patch(amodel.Population, name_, wrap_pop(name_))
 
+    # fine-grained pre-emption (chosen for a third of the runs): inside a stage, at every parameter evaluation,
+    # outflow resolution, junction balancing and program outcome computation
+    if fine_grained:
+        import atomica.programs as aprogs
+
+        def wrap_any(cls, name_):
+            orig = cls.__dict__[name_]
+
+            def wrapper(self, *a, **k):
+                b = baton_holder.get("b")
+                if b is not None:
+                    b.yield_point(name_)
+                return orig(self, *a, **k)
+
+            wrapper.__name__ = name_
+            return wrapper
+
+        for cls, name_ in [(amodel.Parameter, "update"), (amodel.Parameter, "constrain"), (amodel.Compartment, "resolve_outflows"), (amodel.TimedCompartment, "resolve_outflows"), (amodel.JunctionCompartment, "balance"), (amodel.ResidualJunctionCompartment, "balance"), (amodel.Compartment, "update"), (amodel.TimedCompartment, "update"), (amodel.Characteristic, "update"), (aprogs.Covout, "get_outcome")]:
+            seams.patch(cls, name_, wrap_any(cls, name_))
+        bump("probe:fine_grained_preemption")
+
     # ---- disturbances ----------------------------------------------------------------------
     dist_entry = _CORPUS[names[0]]
     dist_P = dist_entry.project()
 
+    dstate = {"decisions": 0, "fired": 0}
+
     def disturb(b):
-        if not p_disturb or not ch.flip("disturb", p_disturb):
+        # at most 80 decisions and 12 disturbances per run (fine-grained runs have thousands of slices)
+        if not p_disturb or dstate["decisions"] >= 80 or dstate["fired"] >= 12:
             return
+        dstate["decisions"] += 1
+        if not ch.flip("disturb", p_disturb):
+            return
+        dstate["fired"] += 1
         kind = ch.choose("disturb.kind", 8)
         if kind == 0:
             np.random.seed(ch.choose("disturb.seed", 2**31 - 1))
